@@ -1,7 +1,7 @@
 #!/bin/bash
 # dev helper: build test binary and run one worker. usage: run1.sh PROP [budget] [seed] [tier]
 export GOFLAGS=-mod=mod GOPROXY=off GOSUMDB=off GOTOOLCHAIN=local
-cd /verif/pegsim && go1.26.8 test -c -tags verif -o /var/tmp/pegsim-scratch/pegsim.test ./h 2>&1 | grep -v "warning\|^#\|note:\|sqlite3-binding\|~~~\|\^\|In function\|     |"
+rsync -a --delete --exclude .git /repo/ /var/tmp/pegsim-scratch/repo/ && SIMRT_DIR=/verif/pegsim/simrt PATH=/opt/veriftools/go1.26.8/bin:$PATH /verif/bin/pegsim-instrument /var/tmp/pegsim-scratch/repo > /var/tmp/pegsim-scratch/instrument.json; cd /verif/pegsim && go1.26.8 test -c -tags verif -o /var/tmp/pegsim-scratch/pegsim.test ./h 2>&1 | grep -v "warning\|^#\|note:\|sqlite3-binding\|~~~\|\^\|In function\|     |"
 cd /var/tmp/pegsim-scratch && rm -f out-$1.json
 PEGSIM_ONESEED=${ONESEED:-} PEGSIM_KNOWN=/verif/known_findings.json PEGSIM_PROP=$1 PEGSIM_TIER=${4:-quick} PEGSIM_SEED=${3:-1} PEGSIM_BUDGET_S=${2:-20} PEGSIM_OUT=/var/tmp/pegsim-scratch/out-$1.json PEGSIM_REPLAYDIR=/var/tmp/pegsim-scratch/replays ./pegsim.test -test.run '^TestWorker$' -test.timeout 0 2>&1 | grep -v "^\s*$" | head -${LINES_MAX:-40}
 python3 - <<PY
